@@ -10,7 +10,7 @@ META = dict(
                "collection layers (vectors with cached length/capacity, maps, graph, indexes). Checked on every run: each of {drop+reopen, optimize_storage, shrink_to_fit, backup+open, copy, rename, reopen with another "
                "file-backed variant} is applied at random points (and at the end) of generated histories on DbFile, Db, DbAny(file) and DbAny(mapped); the full ORDERED dump (ids, endpoints, adjacency order, ordered "
                "properties, aliases, indexes with contents, node count) and a fixed battery of 12 searches (result order included) must be identical before and after, and the history continues on the maintained database "
-               "side by side with the in-memory one and the extracted model.",
+               "side by side with the in-memory one and the extracted model. The *_guarded theorems state the same for the recovery with the position check of apply_wal_record (model recover_g, fixes/C07-wal-position.diff): on these logs the check never fires (C01_guarded_recovery_agrees), so the statements hold for a tree with or without it.",
     design_ref="DESIGN.md §5 C05",
     level_note="Trusted: Coq kernel, extraction, OCaml driver, Rust harness. The storage model is tied to storage.rs by the C04 correspondence. DbMemory 'reopen' = backup to a file + open.",
 )
